@@ -31,7 +31,7 @@ META = {
         'for all of them (reported under %s). Second deviation found: with Tandy / PCjr SOUND ON a tone below 110 Hz is '
         'played at 110 Hz (reported under %s). Not pinned by the statement, hence not generated or not compared: default '
         'T/L/O/M (every string sets them first), volume, note lengths given by variable (pcbasic takes literals only there), C-/B#/E#/F- spellings, note length 0, P without length, dots after '
-        'L, N0, semicolons other than those closing =var; and Xvar;, what was already emitted before a malformed command '
+        'L, N0, leading / trailing / doubled semicolons (a single separator semicolon between two commands, with blanks around it, IS generated, and every command letter comes in either case), what was already emitted before a malformed command '
         'is reached, adjacent silences are compared merged (gap + pause), zero-length synchronisation markers of the '
         'multi-voice syntaxes are ignored. Trusted: harness recording queue and virtual clock, IEEE double pow for the '
         'formula (relative tolerance 1e-9).' % (DEV_KEY, CLAMP_KEY)),
@@ -41,6 +41,7 @@ META = {
     'assumptions': ['tone signals on queues.audio are what the interface would play'],
     'require_counters': {'any': ['tones_logged', 'gaps_checked', 'pauses', 'dotted_notes', 'octave_clamps',
                                  'malformed_rejected', 'notes_ML', 'notes_MS', 'notes_MN', 'substrings', 'variable_references',
+                                 'separator_then_lowercase_command',
                                  'background_queue_waits']},
     'timeout': {'quick': 900, 'thorough': 10800},
 }
@@ -142,8 +143,12 @@ def n_sounds(tokens):
 class Renderer(object):
     """Token items -> pieces of a BASIC string expression + variable assignments."""
 
-    def __init__(self, rng, narr=None):
+    def __init__(self, rng, narr=None, case=None, sep=0.2):
         self.rng = rng
+        self.case = case      # 'lower' / 'upper' / None = per command at random
+        self.sep = sep        # probability of a separator semicolon between two commands
+        self.nsep = 0
+        self.nsep_lower = 0   # separators directly followed by a lower-case command letter
         self.nvar = 0
         self.narr = narr if narr is not None else [0]     # array elements handed out (shared with sub-renderers)
         self.assign = []      # (name bytes, value: int or bytes)
@@ -168,7 +173,11 @@ class Renderer(object):
         return {'%': b'Q%d%%', '!': b'R%d!', '#': b'D%d#', '$': b'S%d$'}[typ] % self.nvar
 
     def _case(self, s):
-        return s.lower() if self.rng.random() < 0.25 else s
+        if self.case == 'lower':
+            return s.lower()
+        if self.case == 'upper':
+            return s
+        return s.lower() if self.rng.random() < 0.35 else s
 
     def _number(self, letter, value, form, pieces):
         if form == 'lit' or form is None:
@@ -187,9 +196,23 @@ class Renderer(object):
 
     def render(self, items, pieces=None):
         pieces = pieces if pieces is not None else []
+        first = True
         for tk, form in items:
+            # an optional separator semicolon BETWEEN two commands (never leading, trailing or doubled, never after
+            # the semicolon that closes =var; / Xvar; or after a VARPTR$ reference), blanks allowed around it
+            sep_here = False
+            if not first and pieces and self.rng.random() < self.sep:
+                last = [p for p in pieces if p[0] == 'ptr' or p[1].strip()][-1:]
+                if last and last[0][0] == 'lit' and not last[0][1].rstrip().endswith(b';'):
+                    if self.rng.random() < 0.3:
+                        pieces.append(('lit', b' '))
+                    pieces.append(('lit', b';'))
+                    self.nsep += 1
+                    sep_here = True
+            first = False
             if self.rng.random() < 0.3:
                 pieces.append(('lit', b' ' * self.rng.randint(1, 2)))
+            mark = len(pieces)
             op = tk[0]
             if op == 'note':
                 s = tk[1].encode() + tk[2].encode()
@@ -210,12 +233,14 @@ class Renderer(object):
             elif op == 'M':
                 pieces.append(('lit', self._case(b'M' + tk[1].encode())))
             elif op == 'X':
-                sub = Renderer(self.rng, self.narr)
+                sub = Renderer(self.rng, self.narr, self.case, self.sep)
                 sub.nvar = self.nvar + 20
                 sp = sub.render(tk[1])
                 text = b''.join(p[1] for p in sp)       # substrings use literal / =var; forms only
                 self.assign.extend(sub.assign)
                 self.nrefs += sub.nrefs + 1
+                self.nsep += sub.nsep
+                self.nsep_lower += sub.nsep_lower
                 self.nvar = sub.nvar
                 name = self._name('str', form[1])
                 self.assign.append((name, text))
@@ -226,6 +251,8 @@ class Renderer(object):
                     self.narrptr += (b'(' in name)
                     pieces.append(('lit', self._case(b'X')))
                     pieces.append(('ptr', name))
+            if sep_here and len(pieces) > mark and pieces[mark][1][:1].islower():
+                self.nsep_lower += 1
         return pieces
 
 
@@ -384,10 +411,10 @@ class Rig(object):
                     w[0][1], w[0][2], rp.formula_frequency(w[0][1]), rp.formula_frequency(w[0][1], -1))))
         return probs
 
-    def check_valid(self, voices_items, rng, origin, force_var=False):
+    def check_valid(self, voices_items, rng, origin, force_var=False, case=None, sep=0.2):
         """voices_items: list (1..3) of item lists. Renders, plays, compares."""
         res, h = self.res, self.h
-        rnd = Renderer(rng)
+        rnd = Renderer(rng, None, case, sep)
         exprs, texts = [], []
         use_var = force_var or rng.random() < 0.4
         assigns_extra = []
@@ -424,7 +451,7 @@ class Rig(object):
             code = -2
         if code:
             key = 'play:valid-string-rejected' if code > 0 else 'play:statement-did-not-finish'
-            if code > 0 and rnd.narrptr:
+            if code == 13 and rnd.narrptr:
                 # an argument given as "="+VARPTR$(array element) (three arrays are dimensioned in the session)
                 key = 'play:varptr-array-element-reference-rejected'
             res.violation(key, '%s -> %r' % (stmt, out[-60:]), case)
@@ -458,6 +485,10 @@ class Rig(object):
                 res.violation('play:tone-on-unused-voice', 'voice %d sounds %r' % (vi, extra[:3]), case)
         if rnd.nrefs:
             res.count('variable_references', rnd.nrefs)
+        if rnd.nsep:
+            res.count('separator_semicolons', rnd.nsep)
+        if rnd.nsep_lower:
+            res.count('separator_then_lowercase_command', rnd.nsep_lower)
         if rnd.nptr:
             res.count('varptr_references', rnd.nptr)
         if rnd.narrptr:
@@ -562,6 +593,19 @@ def directed_cases(part):
             for typ in ('$', 'a$'):
                 sub2 = [(['L', 16], ['var', '#']), (['note', 'G', '', None, 0], None), (['O', 1], ['var', 'a#']), (['note', 'F', '#', 2, 0], None)]
                 yield 'ref X %s %s' % (typ, form), [hdr() + [(['X', sub2], [form, typ]), (['note', 'B', '', None, 0], None)]]
+        # letter case x separators: every command kind, a separator at every position the grammar allows
+        sub3 = [(['note', 'G', '', None, 0], None), (['L', 2], 'lit'), (['note', 'D', '-', None, 1], None)]
+        allk = hdr(T=150, L=8, O=3, M='S') + [
+            (['note', 'C', '', None, 0], None), (['note', 'D', '#', 16, 0], None), (['note', 'E', '-', None, 2], None),
+            (['N', 40, 0], 'lit'), (['N', 12, 1], 'lit'), (['P', 8, 0], None), (['P', 16, 1], None), (['L', 4], 'lit'), (['note', 'F', '', None, 0], None),
+            (['T', 200], 'lit'), (['note', 'G', '+', 2, 0], None), (['O', 5], 'lit'), (['note', 'A', '', None, 0], None), (['>'], None),
+            (['note', 'B', '-', None, 0], None), (['<'], None), (['<'], None), (['note', 'A', '-', 32, 0], None), (['M', 'L'], None),
+            (['note', 'C', '', None, 0], None), (['M', 'N'], None), (['note', 'D', '', None, 0], None), (['M', 'F'], None), (['M', 'B'], None),
+            (['X', sub3], ['var', '$']), (['note', 'E', '', None, 0], None), (['L', 16], ['var', '%']), (['note', 'F', '#', None, 0], None),
+            (['T', 100], ['var', '#']), (['O', 1], ['var', '!']), (['N', 50, 0], ['var', 'a%']), (['note', 'B', '', 4, 1], None)]
+        for cs in ('lower', 'upper', 'mixed'):
+            for sp in (100, 50, 0):
+                yield 'style:%s:%d:all-commands' % (cs, sp), [allk]
         # middle A: the D-S3 reproducer (note number 34 = O2 A under the statement's numbering)
         yield 'd-s3', [hdr(O=2) + [(['note', 'A', '', None, 0], None), (['N', 34, 0], 'lit'), (['N', 1, 0], 'lit'), (['N', 84, 0], 'lit')]]
 
@@ -607,7 +651,11 @@ def _run_rig(spec, kind, r, ri, res):
         for tag, voices in directed_cases(spec['table']):
             if tag.startswith('V:') and not r.allow_v:
                 continue
-            r.check_valid(voices, rng, 'directed:' + tag, force_var=(tag == 'long-background'))
+            style = {}
+            if tag.startswith('style:'):
+                _, cs, sp, _ = tag.split(':', 3)
+                style = {'case': None if cs == 'mixed' else cs, 'sep': int(sp) / 100.0}
+            r.check_valid(voices, rng, 'directed:' + tag, force_var=(tag == 'long-background'), **style)
             res.count('directed_cases')
             if first:
                 res.sample({'kind': 'directed', 'table': spec['table'], 'tag': tag, 'tokens': strip(voices[0])})
